@@ -1,5 +1,551 @@
-use crate::Ctx;
+//! C07 – each complete request is delivered exactly once; no lost wake-ups.
+//! Real server, P client connections, C receiver threads mixing recv / recv_timeout /
+//! try_recv / incoming_requests; the queue's shadow counters (hook H2) are sampled under the
+//! queue's own mutex. A stuck state (request queued, a receiver blocked in recv, no progress)
+//! is confirmed by the kick the property names: one `unblock()`.
 
-pub fn run(_ctx: &Ctx) {
-    unimplemented!()
+use crate::alloc::lib;
+use crate::env::Env;
+use crate::net::Client;
+use crate::report::Violation;
+use crate::util::{now_ns, sleep_us, spawn_named, CalWindow, Rng, J};
+use crate::Ctx;
+use std::collections::HashMap;
+use std::sync::atomic::{AtomicBool, AtomicUsize, Ordering};
+use std::sync::{Arc, Mutex};
+use std::time::{Duration, Instant};
+use tiny_http::{Response, Server};
+
+#[derive(Clone, Debug, PartialEq)]
+pub enum Op {
+    Recv,
+    IterNext,
+    RecvTimeout(u64), // microseconds
+    TryRecv,
+}
+
+#[derive(Clone, Debug, PartialEq)]
+pub enum Leave {
+    /// call again at once
+    Loop,
+    /// do not look at the queue for this long after an empty-handed return
+    SleepMs(u64),
+    /// stop receiving
+    Exit,
+}
+
+#[derive(Clone, Debug)]
+pub struct RecvScript {
+    pub ops: Vec<Op>,
+    pub leave: Leave,
+}
+
+#[derive(Clone, Debug)]
+pub struct ConnPlan {
+    pub m: usize,
+    pub pipelined: bool,
+    pub gaps_us: Vec<u64>,
+}
+
+#[derive(Clone, Debug)]
+pub struct Trial {
+    pub id: u64,
+    pub conns: Vec<ConnPlan>,
+    pub receivers: Vec<RecvScript>,
+}
+
+#[derive(Clone, Debug)]
+pub struct Ev {
+    pub t_ns: u64,
+    pub who: String,
+    pub what: String,
+}
+
+pub struct Shared {
+    pub delivered: Mutex<Vec<(usize, usize, usize, u64)>>, // conn, idx, receiver, t
+    pub log: Mutex<Vec<Ev>>,
+    pub stop: AtomicBool,
+    pub alive: AtomicUsize,
+    pub in_recv: AtomicUsize,
+    pub empty_returns: AtomicUsize,
+    pub unblocked_returns: AtomicUsize,
+    pub foreign: AtomicUsize,
+    /// a receiver that is unblocked leaves instead of calling again
+    pub exit_on_unblock: AtomicBool,
+}
+
+impl Shared {
+    pub fn ev_pub(&self, who: &str, what: String) {
+        self.ev(who, what)
+    }
+    fn ev(&self, who: &str, what: String) {
+        let mut l = self.log.lock().unwrap();
+        if l.len() < 4000 {
+            l.push(Ev { t_ns: now_ns(), who: who.to_string(), what });
+        }
+    }
+}
+
+fn gen_trial(rng: &mut Rng, id: u64) -> Trial {
+    let p = rng.range(1, 6);
+    let conns = (0..p)
+        .map(|_| {
+            let m = if rng.chance(1, 4) { rng.range(10, 30) } else { rng.range(1, 6) };
+            ConnPlan { m, pipelined: rng.chance(1, 2), gaps_us: (0..m).map(|_| if rng.chance(1, 2) { 0 } else { rng.range(0, 4000) as u64 }).collect() }
+        })
+        .collect();
+    let c = rng.range(1, 8);
+    let mut receivers = Vec::new();
+    // receiver 0 never leaves: whatever is queued must reach it
+    receivers.push(RecvScript { ops: vec![if rng.chance(1, 2) { Op::Recv } else { Op::IterNext }], leave: Leave::Loop });
+    let touts = [0u64, 300, 900, 2000, 5000, 20000];
+    for _ in 1..c {
+        let n = rng.range(1, 3);
+        let ops = (0..n)
+            .map(|_| match rng.below(6) {
+                0 => Op::Recv,
+                1 => Op::IterNext,
+                2 => Op::TryRecv,
+                _ => Op::RecvTimeout(*rng.pick(&touts)),
+            })
+            .collect();
+        let leave = match rng.below(4) {
+            0 => Leave::Loop,
+            1 => Leave::Exit,
+            _ => Leave::SleepMs(rng.range(5, 80) as u64),
+        };
+        receivers.push(RecvScript { ops, leave });
+    }
+    Trial { id, conns, receivers }
+}
+
+fn parse_url(url: &str) -> Option<(u64, usize, usize)> {
+    // /q/<trial>/<conn>/<idx>
+    let mut it = url.split('/');
+    it.next()?;
+    if it.next()? != "q" {
+        return None;
+    }
+    let t = u64::from_str_radix(it.next()?, 16).ok()?;
+    let c = it.next()?.parse().ok()?;
+    let i = it.next()?.parse().ok()?;
+    Some((t, c, i))
+}
+
+pub fn receiver_loop(server: Arc<Server>, sh: Arc<Shared>, trial: u64, ridx: usize, script: RecvScript) {
+    let who = format!("r{}", ridx);
+    let mut i = 0usize;
+    loop {
+        if sh.stop.load(Ordering::SeqCst) && script.ops.iter().all(|o| !matches!(o, Op::Recv | Op::IterNext)) {
+            break;
+        }
+        let op = script.ops[i % script.ops.len()].clone();
+        i += 1;
+        sh.ev(&who, format!("call {:?}", op));
+        let blocking = matches!(op, Op::Recv | Op::IterNext);
+        if blocking {
+            sh.in_recv.fetch_add(1, Ordering::SeqCst);
+        }
+        // Ok(Some) = request, Ok(None) = empty-handed, Err = unblocked
+        let r: Result<Option<tiny_http::Request>, ()> = match &op {
+            Op::Recv => lib(|| server.recv()).map(Some).map_err(|_| ()),
+            Op::IterNext => match lib(|| server.incoming_requests().next()) {
+                Some(rq) => Ok(Some(rq)),
+                None => Err(()),
+            },
+            Op::RecvTimeout(us) => lib(|| server.recv_timeout(Duration::from_micros(*us))).map_err(|_| ()),
+            Op::TryRecv => lib(|| server.try_recv()).map_err(|_| ()),
+        };
+        if blocking {
+            sh.in_recv.fetch_sub(1, Ordering::SeqCst);
+        }
+        match r {
+            Ok(Some(rq)) => {
+                let url = rq.url().to_string();
+                if url.starts_with("/ctl") {
+                    let _ = lib(|| rq.respond(Response::from_string("ctl")));
+                    continue;
+                }
+                match parse_url(&url) {
+                    Some((t, c, idx)) if t == trial => {
+                        sh.delivered.lock().unwrap().push((c, idx, ridx, now_ns()));
+                        sh.ev(&who, format!("got {}/{}", c, idx));
+                    }
+                    _ => {
+                        sh.foreign.fetch_add(1, Ordering::SeqCst);
+                        sh.ev(&who, format!("got foreign {}", url));
+                    }
+                }
+                let _ = lib(|| rq.respond(Response::from_string("ok")));
+            }
+            Ok(None) => {
+                sh.empty_returns.fetch_add(1, Ordering::SeqCst);
+                sh.ev(&who, "empty-handed".into());
+                if sh.stop.load(Ordering::SeqCst) {
+                    break;
+                }
+                match script.leave {
+                    Leave::Loop => {
+                        if matches!(op, Op::TryRecv | Op::RecvTimeout(0)) {
+                            sleep_us(100);
+                        }
+                    }
+                    Leave::SleepMs(ms) => {
+                        // sleep in slices so the end of the trial is noticed
+                        let end = Instant::now() + Duration::from_millis(ms);
+                        while Instant::now() < end && !sh.stop.load(Ordering::SeqCst) {
+                            sleep_us(500);
+                        }
+                    }
+                    Leave::Exit => break,
+                }
+            }
+            Err(()) => {
+                sh.unblocked_returns.fetch_add(1, Ordering::SeqCst);
+                sh.ev(&who, "unblocked".into());
+                if sh.stop.load(Ordering::SeqCst) || sh.exit_on_unblock.load(Ordering::SeqCst) {
+                    break;
+                }
+                // an unblock outside the end-of-trial phase is the stall oracle's kick: go on
+            }
+        }
+    }
+    sh.alive.fetch_sub(1, Ordering::SeqCst);
+}
+
+pub fn client_thread(addr: crate::net::Addr, trial: u64, cidx: usize, plan: ConnPlan, sh: Arc<Shared>) -> usize {
+    let mut c = match Client::connect(&addr) {
+        Ok(c) => c,
+        Err(_) => return 0,
+    };
+    let who = format!("c{}", cidx);
+    let mut answered = 0;
+    for i in 0..plan.m {
+        let g = plan.gaps_us[i];
+        if g > 0 {
+            sleep_us(g);
+        }
+        let rq = format!("GET /q/{:x}/{}/{} HTTP/1.1\r\nHost: h\r\n\r\n", trial, cidx, i);
+        sh.ev(&who, format!("send {}/{}", cidx, i));
+        c.send(rq.as_bytes());
+        if !plan.pipelined {
+            // wait for the response, but not forever: a stuck request is the monitor's business
+            match c.await_finals(i + 1, &|_| false, Duration::from_millis(4000)) {
+                crate::net::Got::Msg => answered += 1,
+                _ => return answered,
+            }
+        }
+    }
+    if plan.pipelined {
+        if let crate::net::Got::Msg = c.await_finals(plan.m, &|_| false, Duration::from_millis(4000)) {}
+        answered = c.finals;
+    }
+    answered
+}
+
+fn snap_json(s: &tiny_http::verif::QueueSnapshot) -> J {
+    J::obj()
+        .set("elems", J::u(s.elems))
+        .set("tokens", J::u(s.tokens))
+        .set("pushes", J::u(s.pushes))
+        .set("tokens_in", J::u(s.tokens_in))
+        .set("blocked_pop", J::u(s.blocked_pop))
+        .set("blocked_pop_timeout", J::u(s.blocked_pop_timeout))
+}
+
+fn log_json(sh: &Shared, last: usize) -> J {
+    let l = sh.log.lock().unwrap();
+    let from = l.len().saturating_sub(last);
+    J::A(l[from..].iter().map(|e| J::s(format!("{:>9} us {:>3} {}", e.t_ns / 1000, e.who, e.what))).collect())
+}
+
+/// End of a trial: release every receiver that is still there, drain what is left in the queue.
+pub fn wind_down(server: &Arc<Server>, sh: &Arc<Shared>, handles: Vec<std::thread::JoinHandle<()>>) -> bool {
+    sh.stop.store(true, Ordering::SeqCst);
+    let t = Instant::now();
+    while sh.alive.load(Ordering::SeqCst) > 0 {
+        if t.elapsed() > Duration::from_secs(10) {
+            return false;
+        }
+        // one token per receiver still blocked in recv; repeated because (on a defective tree) a
+        // token's notification can itself be lost
+        let s = server.verif_queue_snapshot();
+        if s.blocked_pop > s.tokens {
+            server.unblock();
+        } else {
+            sleep_us(300);
+            let s2 = server.verif_queue_snapshot();
+            if s2.blocked_pop > 0 && s2.tokens >= s2.blocked_pop && sh.alive.load(Ordering::SeqCst) > 0 {
+                // tokens are queued, receivers still blocked: nudge
+                server.unblock();
+            }
+        }
+        sleep_us(200);
+    }
+    for h in handles {
+        let _ = h.join();
+    }
+    // drain left-over tokens / requests
+    for _ in 0..10_000 {
+        let s = server.verif_queue_snapshot();
+        if s.elems == 0 && s.tokens == 0 {
+            break;
+        }
+        if let Ok(Some(rq)) = server.try_recv() {
+            let _ = rq.respond(Response::from_string("drained"));
+        }
+    }
+    true
+}
+
+pub fn run_trial(ctx: &Ctx, env: &Env, trial: &Trial, case_seed: u64, mode: &str) {
+    let rep = &ctx.rep;
+    let server = env.server.clone();
+    let sh = Arc::new(Shared {
+        delivered: Mutex::new(Vec::new()),
+        log: Mutex::new(Vec::new()),
+        stop: AtomicBool::new(false),
+        alive: AtomicUsize::new(trial.receivers.len()),
+        in_recv: AtomicUsize::new(0),
+        empty_returns: AtomicUsize::new(0),
+        unblocked_returns: AtomicUsize::new(0),
+        foreign: AtomicUsize::new(0),
+        exit_on_unblock: AtomicBool::new(false),
+    });
+    let mut rh = Vec::new();
+    for (i, s) in trial.receivers.iter().enumerate() {
+        let (server, sh, s) = (server.clone(), sh.clone(), s.clone());
+        let id = trial.id;
+        rh.push(spawn_named(&format!("rcv{}", i), move || receiver_loop(server, sh, id, i, s)));
+    }
+    let cal = CalWindow::open();
+    let mut ch = Vec::new();
+    for (i, p) in trial.conns.iter().enumerate() {
+        let (addr, sh, p) = (env.addr.clone(), sh.clone(), p.clone());
+        let id = trial.id;
+        ch.push(spawn_named(&format!("cl{}", i), move || client_thread(addr, id, i, p, sh)));
+    }
+    let total: usize = trial.conns.iter().map(|c| c.m).sum();
+    // monitor: progress = deliveries; distinct snapshot states are evidence
+    let mut states: std::collections::HashSet<(usize, usize, usize)> = std::collections::HashSet::new();
+    let mut last_count = 0usize;
+    let mut last_progress = Instant::now();
+    let t0 = Instant::now();
+    let mut verdict: Option<(String, String, J)> = None;
+    let mut inconclusive: Option<String> = None;
+    loop {
+        let n = sh.delivered.lock().unwrap().len();
+        let s = server.verif_queue_snapshot();
+        states.insert((s.elems.min(9), s.blocked_pop, s.blocked_pop_timeout));
+        if n >= total {
+            break;
+        }
+        if n != last_count {
+            last_count = n;
+            last_progress = Instant::now();
+        }
+        if last_progress.elapsed() > Duration::from_millis(300) {
+            // no delivery for 300 ms
+            if s.elems >= 1 && s.blocked_pop >= 1 {
+                // stuck state: confirm it is stable, that we were scheduled, then kick
+                let s2 = {
+                    sleep_us(20_000);
+                    server.verif_queue_snapshot()
+                };
+                if s2.elems >= 1 && s2.blocked_pop >= 1 && s2.pushes == s.pushes && sh.delivered.lock().unwrap().len() == n {
+                    if !cal.healthy(Duration::from_millis(150)) {
+                        inconclusive = Some("stuck queue state but the calibrator shows the process was not scheduled".into());
+                        break;
+                    }
+                    sh.ev("mon", format!("stuck: {:?} -> kick unblock()", s2));
+                    server.unblock();
+                    let kick_t = Instant::now();
+                    let mut after = n;
+                    while kick_t.elapsed() < Duration::from_millis(150) {
+                        after = sh.delivered.lock().unwrap().len();
+                        if after > n {
+                            break;
+                        }
+                        sleep_us(200);
+                    }
+                    if after > n {
+                        let d = sh.delivered.lock().unwrap().last().cloned().unwrap();
+                        verdict = Some((
+                            "C07/lost-wakeup".into(),
+                            format!(
+                                "request {}/{} stayed queued for {} ms while a receiver was blocked in recv(); it was delivered {} us after an unrelated unblock()",
+                                d.0,
+                                d.1,
+                                last_progress.elapsed().as_millis(),
+                                kick_t.elapsed().as_micros()
+                            ),
+                            J::obj().set("snapshot_before_kick", snap_json(&s2)),
+                        ));
+                        // let the remaining requests flow so that the trial can end
+                        last_progress = Instant::now();
+                        last_count = after;
+                        continue;
+                    } else {
+                        inconclusive = Some("stuck queue state did not resolve after the kick".into());
+                        break;
+                    }
+                }
+            }
+            if last_progress.elapsed() > Duration::from_millis(2500) {
+                // clients done? then requests are missing
+                let s3 = server.verif_queue_snapshot();
+                if !cal.healthy(Duration::from_millis(250)) {
+                    inconclusive = Some("no progress and calibrator unhealthy".into());
+                } else if verdict.is_none() {
+                    verdict = Some((
+                        "C07/request-not-delivered".into(),
+                        format!("{} of {} sent requests were never handed to a receiver", total - n, total),
+                        J::obj().set("snapshot", snap_json(&s3)),
+                    ));
+                }
+                break;
+            }
+        }
+        if t0.elapsed() > Duration::from_secs(30) {
+            inconclusive = Some("trial watchdog (30 s)".into());
+            break;
+        }
+        sleep_us(1000);
+    }
+    let mut answered = 0;
+    for h in ch {
+        answered += h.join().unwrap_or(0);
+    }
+    if !wind_down(&server, &sh, rh) {
+        inconclusive = Some("receivers did not wind down".into());
+    }
+    // offline checks over the delivery history
+    let del = sh.delivered.lock().unwrap().clone();
+    let mut seen: HashMap<(usize, usize), usize> = HashMap::new();
+    for d in &del {
+        *seen.entry((d.0, d.1)).or_insert(0) += 1;
+    }
+    if verdict.is_none() && inconclusive.is_none() {
+        if let Some((k, c)) = seen.iter().find(|(_, c)| **c > 1) {
+            verdict = Some(("C07/delivered-twice".into(), format!("request {}/{} was handed out {} times", k.0, k.1, c), J::Null));
+        } else if sh.foreign.load(Ordering::SeqCst) > 0 {
+            verdict = Some(("C07/foreign-request".into(), "a request that was not sent in this trial was delivered".into(), J::Null));
+        } else if trial.receivers.len() == 1 {
+            let mut last: HashMap<usize, usize> = HashMap::new();
+            for d in &del {
+                if let Some(prev) = last.get(&d.0) {
+                    if d.1 <= *prev {
+                        verdict = Some((
+                            "C07/single-receiver-order".into(),
+                            format!("single receiver saw request {}/{} after {}/{}", d.0, d.1, d.0, prev),
+                            J::Null,
+                        ));
+                        break;
+                    }
+                }
+                last.insert(d.0, d.1);
+            }
+        }
+        if verdict.is_none() && answered != total {
+            // every delivered request is answered at once; a client that did not get its
+            // responses means a request was lost between socket and queue
+            verdict = Some((
+                "C07/client-unanswered".into(),
+                format!("clients got {} responses for {} requests", answered, total),
+                J::Null,
+            ));
+        }
+    }
+    // evidence
+    rep.counts.add("requests_sent", total as u64);
+    rep.counts.add("requests_delivered", del.len() as u64);
+    rep.counts.add("empty_handed_returns", sh.empty_returns.load(Ordering::SeqCst) as u64);
+    for r in &trial.receivers {
+        for o in &r.ops {
+            rep.inc(&format!("receiver_op:{}", match o { Op::Recv => "recv", Op::IterNext => "incoming_requests", Op::TryRecv => "try_recv", Op::RecvTimeout(_) => "recv_timeout" }));
+        }
+    }
+    {
+        let mut ex = rep.extra.lock().unwrap();
+        let e = ex.entry("snapshot_states_seen".into()).or_insert(J::A(Vec::new()));
+        if let J::A(v) = e {
+            for s in &states {
+                let js = J::s(format!("elems={} blocked_recv={} blocked_recv_timeout={}", s.0, s.1, s.2));
+                if v.len() < 200 && !v.iter().any(|x| x.to_string() == js.to_string()) {
+                    v.push(js);
+                }
+            }
+        }
+    }
+    let kinds: std::collections::BTreeSet<String> = trial.receivers.iter().flat_map(|r| r.ops.iter().map(|o| format!("{:?}", o))).collect();
+    let sig = format!(
+        "P{}|C{}|{:?}|{:?}",
+        trial.conns.len(),
+        trial.receivers.len(),
+        kinds,
+        trial.receivers.iter().map(|r| format!("{:?}", r.leave).chars().take(5).collect::<String>()).collect::<Vec<_>>()
+    );
+    if let Some(why) = inconclusive {
+        rep.inconclusive(&why);
+        return;
+    }
+    let nontrivial = trial.receivers.len() > 1 || trial.conns.len() > 1;
+    rep.eval(if nontrivial { Some(&sig) } else { None });
+    if let Some((signature, what, extra)) = verdict {
+        rep.violation(Violation {
+            signature,
+            what,
+            detail: J::obj()
+                .set("trial", J::s(format!("{:?}", trial).chars().take(3000).collect::<String>()))
+                .set("extra", extra)
+                .set("history_tail", log_json(&sh, 120)),
+            case_seed,
+            mode: mode.to_string(),
+        });
+    } else if rep.want_sample() && case_seed % 11 == 0 {
+        rep.sample(|| {
+            J::obj()
+                .set("connections", J::A(trial.conns.iter().map(|c| J::s(format!("m={} pipelined={}", c.m, c.pipelined))).collect()))
+                .set("receivers", J::A(trial.receivers.iter().map(|r| J::s(format!("{:?} then {:?}", r.ops, r.leave))).collect()))
+                .set("delivered", J::u(del.len()))
+                .set("history_head", log_json(&sh, 4000).clone())
+        });
+    }
+}
+
+pub fn run(ctx: &Ctx) {
+    crate::env::install_fp_hook();
+    use tiny_http::verif as v;
+    if let Some((cs, mode, repeat)) = &ctx.replay {
+        let env = Env::new(false, 0);
+        crate::env::fp_configure(*cs, &[v::FP_CONN_PRE_PUSH], 200, 300);
+        for _ in 0..(*repeat).max(1) {
+            let mut rng = Rng::new(*cs);
+            let t = gen_trial(&mut rng, *cs & 0xffff_ffff);
+            run_trial(ctx, &env, &t, *cs, mode);
+        }
+        return;
+    }
+    let mut rng = Rng::new(ctx.seed ^ ((ctx.shard as u64) << 32) ^ 0xC07);
+    let pert = crate::env::perturb_setup(&mut rng, ctx.shard, true);
+    let permille = *rng.pick(&[0u32, 100, 300]);
+    crate::env::fp_configure(ctx.seed ^ ctx.shard as u64, &[v::FP_CONN_PRE_PUSH], permille, 300);
+    let mut env = Env::new(false, 0);
+    let mut idx = 0u64;
+    while ctx.time_left() {
+        if env.cases_run >= 300 {
+            env = Env::new(false, 0);
+        }
+        let cs = ctx.case_seed(idx);
+        let mut r = Rng::new(cs);
+        let t = gen_trial(&mut r, cs & 0xffff_ffff);
+        run_trial(ctx, &env, &t, cs, "native");
+        env.cases_run += 1;
+        idx += 1;
+        if ctx.rep.n_violations() >= 6 {
+            break;
+        }
+    }
+    ctx.rep.set_extra("perturbation", J::s(format!("{} fp_delay_permille={}", pert.desc, permille)));
+    ctx.rep.set_extra("failpoints", J::O(crate::env::fp_hits().into_iter().map(|(k, v)| (k, J::I(v as i64))).collect()));
 }
